@@ -1164,4 +1164,375 @@ theorem digitVal_lt_10 (x : UInt8) : (∃ d, digitVal x = some d ∧ d < 10) ↔
 
 end Strto
 
+
+section TokenText
+open ScpiVerif.Spec ScpiVerif.Lemmas.Lexer ScpiVerif.Lemmas.Regex
+
+/-! ### the text of a delivered token -/
+
+theorem plainSpec_PM {r : Re} {ty : TokType} {s : Bytes} {n : Nat} (h : plainSpec r ty s = some ⟨n, ty, 0, n⟩) :
+    0 < n ∧ PM r s n ∧ ∀ m, PM r s m → m ≤ n := by
+  unfold plainSpec at h
+  split at h
+  · rename_i k hk
+    split at h
+    · rename_i hpos
+      cases h
+      exact ⟨hpos, longest_some_PM hk⟩
+    · cases h
+  · cases h
+
+theorem PM_take {r : Re} {s : Bytes} {n m : Nat} (hn : n ≤ s.length) :
+    PM r (s.take n) m ↔ PM r s m ∧ m ≤ n := by
+  unfold PM
+  constructor
+  · rintro ⟨h1, h2⟩
+    have hm : m ≤ n := by simpa [Nat.min_eq_left hn] using h1
+    rw [List.take_take, Nat.min_eq_left hm] at h2
+    exact ⟨⟨by omega, h2⟩, hm⟩
+  · rintro ⟨⟨h1, h2⟩, hm⟩
+    refine ⟨by simp; omega, ?_⟩
+    rw [List.take_take, Nat.min_eq_left hm]
+    exact h2
+
+/-- a plain token found in `s` is found, the same, in any prefix of `s` that contains it -/
+theorem plainSpec_take {r : Re} {ty : TokType} {s : Bytes} {e n : Nat}
+    (h : plainSpec r ty s = some ⟨e, ty, 0, e⟩) (hen : e ≤ n) (hn : n ≤ s.length) :
+    plainSpec r ty (s.take n) = some ⟨e, ty, 0, e⟩ := by
+  obtain ⟨h0, h1, h2⟩ := plainSpec_PM h
+  exact plainSpec_some h0 ((PM_take hn).2 ⟨h1, hen⟩) (fun m hm => h2 m ((PM_take hn).1 hm).1)
+
+/-- the whole of a plain token, taken alone, is that token -/
+theorem plainSpec_self {r : Re} {ty : TokType} {s : Bytes} {n : Nat}
+    (h : plainSpec r ty s = some ⟨n, ty, 0, n⟩) :
+    plainSpec r ty (s.take n) = some ⟨n, ty, 0, n⟩ :=
+  plainSpec_take h (Nat.le_refl _) (plainSpec_PM h).2.1.1
+
+theorem tw_take (p : UInt8 → Bool) (s : Bytes) (k : Nat) : tw p (s.take k) = min (tw p s) k := by
+  induction s generalizing k with
+  | nil => simp
+  | cons b s ih =>
+    cases k with
+    | zero => simp
+    | succ k =>
+      rw [List.take_succ_cons, tw_cons, tw_cons]
+      split
+      · rw [ih]; omega
+      · simp
+
+theorem dropWhile_eq_drop_tw (p : UInt8 → Bool) (s : Bytes) : s.dropWhile p = s.drop (tw p s) := by
+  induction s with
+  | nil => rfl
+  | cons b s ih =>
+    rw [List.dropWhile_cons, tw_cons]
+    split
+    · rw [ih, Nat.add_comm]; rfl
+    · rfl
+
+/-- all bytes of a word of the language satisfy `q` when every character class does -/
+def reAll (q : UInt8 → Prop) : Re → Prop
+  | .empty => True
+  | .eps => True
+  | .chr p => ∀ b, p b = true → q b
+  | .seq a b => reAll q a ∧ reAll q b
+  | .alt a b => reAll q a ∧ reAll q b
+  | .star a => reAll q a
+
+theorem matches_all {q : UInt8 → Prop} {r : Re} {u : Bytes} (h : Matches r u) (hr : reAll q r) :
+    ∀ b ∈ u, q b := by
+  induction h with
+  | eps => intro b hb; cases hb
+  | chr p b hp => intro x hx; rw [List.mem_singleton] at hx; rw [hx]; exact hr b hp
+  | seq _ _ iha ihb =>
+    intro x hx
+    rcases List.mem_append.1 hx with hx | hx
+    · exact iha hr.1 x hx
+    · exact ihb hr.2 x hx
+  | altL _ ih => exact ih hr.1
+  | altR _ ih => exact ih hr.2
+  | starNil => intro b hb; cases hb
+  | starCons _ _ iha ihb =>
+    intro x hx
+    rcases List.mem_append.1 hx with hx | hx
+    · exact iha hr x hx
+    · exact ihb hr x hx
+
+theorem isAlpha_ne0 : ∀ b : UInt8, isAlpha b = true → b ≠ 0 := by
+  intro b h h0; subst h0; exact absurd h (by decide)
+theorem isDigit_ne0 : ∀ b : UInt8, isDigit b = true → b ≠ 0 := by
+  intro b h h0; subst h0; exact absurd h (by decide)
+
+theorem mnemonic_noNul : reAll (· ≠ 0) mnemonic := by
+  refine ⟨isAlpha_ne0, ?_⟩
+  intro b h h0; subst h0; exact absurd h (by decide)
+
+theorem suffix_noNul : reAll (· ≠ 0) Spec.suffix := by
+  have h47 : ∀ b : UInt8, (b == 47) = true → b ≠ 0 := by intro b h h0; subst h0; exact absurd h (by decide)
+  have h45 : ∀ b : UInt8, (b == 45) = true → b ≠ 0 := by intro b h h0; subst h0; exact absurd h (by decide)
+  have hsd : ∀ b : UInt8, (b == 47 || b == 46) = true → b ≠ 0 := by intro b h h0; subst h0; exact absurd h (by decide)
+  simp only [Spec.suffix, suffixTail, Re.opt, Re.plus, Re.c, reAll]
+  exact ⟨⟨trivial, h47⟩, trivial, ⟨isAlpha_ne0, isAlpha_ne0⟩, ⟨⟨trivial, h45⟩, trivial, isDigit_ne0⟩,
+    hsd, isAlpha_ne0, ⟨trivial, h45⟩, trivial, isDigit_ne0⟩
+
+/-- a character-data token: not empty, starts with a letter, no NUL, and re-lexes to itself -/
+theorem chr_token_facts {s : Bytes} {n : Nat} (h : specToken .chr s = some ⟨n, .programMnemonic, 0, n⟩) :
+    n ≤ s.length ∧ 0 < n ∧ hd (s.take n) isAlpha = true ∧ (∀ b ∈ s.take n, b ≠ 0) ∧
+    specToken .chr (s.take n) = some ⟨n, .programMnemonic, 0, n⟩ := by
+  have h' : plainSpec mnemonic .programMnemonic s = some ⟨n, .programMnemonic, 0, n⟩ := h
+  obtain ⟨h0, h1, h2⟩ := plainSpec_PM h'
+  have hal := (PM_mnemonic.1 h1).1
+  refine ⟨h1.1, h0, ?_, matches_all h1.2 mnemonic_noNul, plainSpec_self h'⟩
+  obtain ⟨b, hb, hs⟩ := hd_cons_drop hal
+  rw [hs]
+  cases n with
+  | zero => omega
+  | succ n => simpa using hb
+
+/-- a decimal token: optional sign, then a digit or the point -/
+theorem decimal_token_head {s : Bytes} {n : Nat} (h : specToken .decimal s = some ⟨n, .decimal, 0, n⟩) :
+    n ≤ s.length ∧ ∃ sg x rest, s.take n = sg ++ x :: rest ∧ (sg = [] ∨ sg = [43] ∨ sg = [45]) ∧
+      (isDigit x = true ∨ x = 46) := by
+  have h' : plainSpec Spec.decimal .decimal s = some ⟨n, .decimal, 0, n⟩ := h
+  obtain ⟨h0, h1, h2⟩ := plainSpec_PM h'
+  refine ⟨h1.1, ?_⟩
+  have h3 := h1
+  unfold Spec.decimal at h3
+  rw [PM_seq] at h3
+  obtain ⟨i, j, hn, hm, _⟩ := h3
+  obtain ⟨j', hi, hcore⟩ := decimal_PM_mantissa.1 hm
+  have hj' : 1 ≤ j' := by
+    rw [decimal_PM_core rfl rfl] at hcore
+    rcases hcore with h | h <;> omega
+  have hhd := decimal_core_hd _ _ hcore
+  obtain ⟨x, hx, hsx⟩ := hd_cons_drop hhd
+  have hx' : isDigit x = true ∨ x = 46 := by
+    simp only [Bool.or_eq_true, beq_iff_eq] at hx; exact hx
+  by_cases hsg : hd s isPlusMn = true
+  · rw [if_pos hsg] at hi hsx
+    obtain ⟨b, hb, hsb⟩ := hd_cons_drop hsg
+    have hb' : b = 43 ∨ b = 45 := by
+      simp only [isPlusMn, Bool.or_eq_true, beq_iff_eq] at hb; exact hb
+    refine ⟨[b], x, ((s.drop 1).drop 1).take (n - 2), ?_, by rcases hb' with rfl | rfl <;> simp, hx'⟩
+    rw [hsb, hsx]
+    have : n = (n - 2) + 1 + 1 := by omega
+    rw [this]; simp
+  · rw [if_neg hsg] at hi hsx
+    refine ⟨[], x, (s.drop 1).take (n - 1), ?_, .inl rfl, hx'⟩
+    simp only [List.drop_zero] at hsx
+    rw [hsx]
+    have : n = (n - 1) + 1 := by omega
+    rw [this]; simp
+
+end TokenText
+
+/-! ### name matching and unit lookup against the specification -/
+
+
+theorem toLower_eq_lower : Match.toLower = Spec.Pattern.lower := rfl
+
+/-- a statement about all bytes checked on the 256 values -/
+theorem forall_byte (P : UInt8 → Prop) (h : ∀ n : Fin 256, P (UInt8.ofNat n.val)) (b : UInt8) : P b := by
+  have := h ⟨b.toNat, UInt8.toNat_lt b⟩
+  simpa using this
+
+theorem lower_ne_zero : ∀ b : UInt8, b ≠ 0 → Spec.Pattern.lower b ≠ 0 := by
+  apply forall_byte (fun b => b ≠ 0 → Spec.Pattern.lower b ≠ 0)
+  set_option maxRecDepth 100000 in decide
+
+theorem lower_eq_zero_iff (b : UInt8) : Spec.Pattern.lower b = 0 ↔ b = 0 := by
+  constructor
+  · intro h
+    apply Classical.byContradiction
+    intro hb
+    exact lower_ne_zero b hb h
+  · intro h; subst h; decide
+
+theorem matchRd_drop (a : Bytes) (i k : Nat) : Match.rd (a.drop i) k = Match.rd a (i + k) := by
+  simp [Match.rd, List.getD, List.getElem?_drop]
+
+/-- offsets can be moved into `drop` -/
+theorem caseEq_drop (n : Nat) : ∀ (a b : Bytes) (i j : Nat),
+    Match.caseEq a i b j n = Match.caseEq (a.drop i) 0 (b.drop j) 0 n := by
+  induction n with
+  | zero => intros; simp [Match.caseEq]
+  | succ n ih =>
+    intro a b i j
+    simp only [Match.caseEq]
+    rw [ih a b (i + 1) (j + 1), ih (a.drop i) (b.drop j) (0 + 1) (0 + 1)]
+    simp [matchRd_drop, List.drop_drop, Nat.add_comm]
+
+theorem caseEq_nil_left (n : Nat) (v : Bytes) (hv : ∀ x ∈ v, x ≠ 0) (hl : n ≤ v.length) :
+    Match.caseEq [] 0 v 0 n = (n == 0) := by
+  cases n with
+  | zero => simp [Match.caseEq]
+  | succ n =>
+    cases v with
+    | nil => simp at hl
+    | cons y v =>
+      have hy : y ≠ 0 := hv y (by simp)
+      have := lower_ne_zero y hy
+      simp [Match.caseEq, Match.rd, toLower_eq_lower]
+      intro h
+      have h0 : Spec.Pattern.lower 0 = 0 := by decide
+      rw [h0] at h
+      exact absurd h.symm this
+
+/-- caseEq on whole lists = equality of lowered prefixes, if one of the two prefixes is NUL-free -/
+theorem caseEq_take (n : Nat) : ∀ (u v : Bytes), n ≤ u.length → n ≤ v.length →
+    ((∀ x ∈ u.take n, x ≠ 0) ∨ (∀ x ∈ v.take n, x ≠ 0)) →
+    Match.caseEq u 0 v 0 n = ((u.take n).map Spec.Pattern.lower == (v.take n).map Spec.Pattern.lower) := by
+  induction n with
+  | zero => intros; simp [Match.caseEq]
+  | succ n ih =>
+    intro u v hu hv hz
+    cases u with
+    | nil => simp at hu
+    | cons x u =>
+      cases v with
+      | nil => simp at hv
+      | cons y v =>
+        simp only [Match.caseEq]
+        rw [caseEq_drop n (x :: u) (y :: v) (0 + 1) (0 + 1)]
+        simp only [Nat.zero_add, List.drop_succ_cons, List.drop_zero, Match.rd, List.getD_cons_zero,
+          toLower_eq_lower, List.take_succ_cons, List.map_cons]
+        simp only [List.length_cons, Nat.add_le_add_iff_right] at hu hv
+        have hz' : (∀ x ∈ u.take n, x ≠ 0) ∨ (∀ x ∈ v.take n, x ≠ 0) := by
+          rcases hz with h | h
+          · left; intro z hz; exact h z (by simp [List.take_succ_cons, hz])
+          · right; intro z hz; exact h z (by simp [List.take_succ_cons, hz])
+        rw [ih u v hu hv hz']
+        by_cases hxy : Spec.Pattern.lower x = Spec.Pattern.lower y
+        · have hx0 : Spec.Pattern.lower x ≠ 0 := by
+            rcases hz with h | h
+            · exact lower_ne_zero x (h x (by simp [List.take_succ_cons]))
+            · rw [hxy]; exact lower_ne_zero y (h y (by simp [List.take_succ_cons]))
+          simp [hxy, hx0]
+          intro h; rw [hxy] at hx0; exact absurd h hx0
+        · simp [hxy]
+
+theorem ciEq_comm (a b : Bytes) : Spec.Pattern.ciEq a b = Spec.Pattern.ciEq b a := by
+  simp only [Spec.Pattern.ciEq]; exact BEq.comm
+
+theorem ciEq_length {a b : Bytes} (h : Spec.Pattern.ciEq a b = true) : a.length = b.length := by
+  simp [Spec.Pattern.ciEq] at h
+  have := congrArg List.length h
+  simpa using this
+
+/-- the general form: a prefix of `a` against the whole of `b` -/
+theorem compareStr_take (a b : Bytes) (k : Nat) (hk : k ≤ a.length)
+    (hz : (∀ x ∈ a, x ≠ 0) ∨ (∀ x ∈ b, x ≠ 0)) :
+    Match.compareStr a 0 k b 0 b.length = Spec.Pattern.ciEq b (a.take k) := by
+  unfold Match.compareStr
+  by_cases hkb : k = b.length
+  · subst hkb
+    have hz' : (∀ x ∈ a.take b.length, x ≠ 0) ∨ (∀ x ∈ b.take b.length, x ≠ 0) := by
+      rcases hz with h | h
+      · left; intro x hx; exact h x (List.mem_of_mem_take hx)
+      · right; intro x hx; exact h x (List.mem_of_mem_take hx)
+    rw [caseEq_take b.length a b hk (Nat.le_refl _) hz']
+    rw [ciEq_comm b]
+    simp [Spec.Pattern.ciEq]
+  · have : Spec.Pattern.ciEq b (a.take k) = false := by
+      cases h : Spec.Pattern.ciEq b (a.take k) with
+      | false => rfl
+      | true =>
+        have := ciEq_length h
+        simp [List.length_take, Nat.min_eq_left hk] at this
+        exact absurd this.symm hkb
+    rw [this]
+    simp [hkb]
+
+/-- strncasecmp-style comparison of two whole byte strings = case-insensitive equality, when the first has no NUL -/
+theorem compareStr_eq_ciEq (a b : Bytes) (ha : ∀ x ∈ a, x ≠ 0) :
+    Match.compareStr a 0 a.length b 0 b.length = Spec.Pattern.ciEq a b := by
+  rw [compareStr_take a b a.length (Nat.le_refl _) (Or.inl ha), List.take_length, ciEq_comm]
+
+theorem shortPos_go (p : Bytes) (hp : ∀ x ∈ p, x ≠ 0) (fuel : Nat) : ∀ i, p.length ≤ fuel + i →
+    Match.shortPos.go p 0 p.length fuel i = i + ((p.drop i).takeWhile (fun b => !isLower b)).length := by
+  induction fuel with
+  | zero =>
+    intro i hi
+    simp [Match.shortPos.go, List.drop_eq_nil_of_le (show p.length ≤ i by omega)]
+  | succ fuel ih =>
+    intro i hi
+    simp only [Match.shortPos.go]
+    by_cases hlt : i < p.length
+    · have hrd : Match.rd p (0 + i) = p[i] := by simp [Match.rd, List.getD, hlt]
+      have hne : p[i] ≠ 0 := hp _ (List.getElem_mem hlt)
+      rw [hrd, List.drop_eq_getElem_cons hlt, List.takeWhile_cons]
+      by_cases hlow : isLower p[i] = true
+      · simp [hlt, hne, hlow]
+      · simp [hlt, hne, hlow]
+        rw [ih (i + 1) (by omega)]
+        omega
+    · simp [hlt, List.drop_eq_nil_of_le (show p.length ≤ i by omega)]
+
+theorem shortPos_eq (p : Bytes) (hp : ∀ x ∈ p, x ≠ 0) :
+    Match.shortPos p 0 p.length = (p.takeWhile (fun b => !isLower b)).length := by
+  unfold Match.shortPos
+  rw [shortPos_go p hp p.length 0 (by omega)]
+  simp
+
+theorem take_takeWhile_length (p : Bytes) (f : UInt8 → Bool) :
+    p.take (p.takeWhile f).length = p.takeWhile f := by
+  induction p with
+  | nil => simp
+  | cons x p ih =>
+    by_cases h : f x = true
+    · simp [List.takeWhile_cons, h, ih]
+    · simp [List.takeWhile_cons, h]
+
+theorem takeWhile_length_le (p : Bytes) (f : UInt8 → Bool) : (p.takeWhile f).length ≤ p.length := by
+  induction p with
+  | nil => simp
+  | cons x p ih =>
+    by_cases h : f x = true
+    · simp [List.takeWhile_cons, h, ih]
+    · simp [List.takeWhile_cons, h]
+
+/-- SCPI_ParamToChoice's name test = the specification's, for an option name without NUL and '#'
+and a text without NUL -/
+theorem matchName_eq (name s : Bytes) (hname : ∀ b ∈ name, b ≠ 0 ∧ b ≠ 35) (hs : ∀ b ∈ s, b ≠ 0) :
+    matchName name s = nameMatches name s := by
+  have hn0 : ∀ b ∈ name, b ≠ 0 := fun b hb => (hname b hb).1
+  have hlast : ¬ (name.length > 0 ∧ (Match.rd name (0 + name.length - 1) == 35) = true) := by
+    intro ⟨hpos, h⟩
+    have hlt : name.length - 1 < name.length := by omega
+    have : Match.rd name (0 + name.length - 1) = name[name.length - 1] := by
+      simp [Match.rd, List.getD, hlt]
+    rw [this] at h
+    have := (hname _ (List.getElem_mem hlt)).2
+    simp at h
+    exact this h
+  unfold matchName Match.matchPattern nameMatches
+  rw [if_neg hlast]
+  simp only []
+  rw [compareStr_take name s name.length (Nat.le_refl _) (Or.inr hs), List.take_length,
+    shortPos_eq name hn0,
+    compareStr_take name s _ (takeWhile_length_le name _) (Or.inr hs), take_takeWhile_length]
+
+theorem translateUnit_go (s : Bytes) (hs : ∀ b ∈ s, b ≠ 0) (l : List (String × Nat × Nat × Nat)) :
+    (translateUnit.go s l).isSome = l.any (fun u => Spec.Pattern.ciEq s u.1.toUTF8.toList) := by
+  induction l with
+  | nil => simp [translateUnit.go]
+  | cons e rest ih =>
+    obtain ⟨n, u, a, b⟩ := e
+    simp only [translateUnit.go, List.any_cons]
+    rw [compareStr_eq_ciEq s (Result.bytesOf n) hs]
+    have : Result.bytesOf n = n.toUTF8.toList := rfl
+    rw [this]
+    cases h : Spec.Pattern.ciEq s n.toUTF8.toList with
+    | true => simp
+    | false => simp [ih]
+
+/-- translateUnit finds a unit iff the specification knows it (text without NUL) -/
+theorem translateUnit_isSome (s : Bytes) (hs : ∀ b ∈ s, b ≠ 0) : (translateUnit s).isSome = unitKnown s := by
+  unfold translateUnit unitKnown
+  exact translateUnit_go s hs Gen.unitsDef
+
+theorem boolDef_names : ∀ o ∈ boolDef, ∀ b ∈ o.1, b ≠ 0 ∧ b ≠ 35 := by decide +kernel
+theorem specialDef_names : ∀ o ∈ specialDef, ∀ b ∈ o.1, b ≠ 0 ∧ b ≠ 35 := by decide +kernel
+
+
+
 end ScpiVerif.Lemmas.Params
